@@ -1164,9 +1164,6 @@ def gen_C06(rng, tier, changed):
 
 def oracle_C06(case, hlines):
     """direct oracle: every row/column view yields exactly the logical row/column, from either end, with exact lengths"""
-    if case.elem in ('unit', 'zd'):
-        # indistinguishable elements: counts and lengths of the mutable outer / inner iterators only
-        return oracle_C03(case, hlines)
     out = []
     ops = [o for o in case.ops if o[1] != 'fault']
     prev = None
@@ -1643,6 +1640,15 @@ def gen_C20(rng, tier, changed):
         ops = [op('from_row', 0, rows=[vals]), op('reshape', 0, r, c), op('resize', 0, r2, c2), op('display', 0), op('debug', 0),
                op('switch_order', 0), op('debug', 0), op('resize', 0, r, c), op('debug', 0)]
         cases.append(Case(f'C20-cap{r}x{c}', ops, 'tr'))
+    # formatting is a pure function of the matrix: a format call cut short by a panicking element (caught by the caller)
+    # must not influence later calls on the same thread (state kept between calls; gap found with seeded change C20f)
+    for (r, c, k) in [(1, 3, 2), (2, 2, 1), (2, 3, 4), (3, 2, 6)]:
+        for which in ('display', 'debug'):
+            v0 = [rng.choice([7, 42, 1001, 5, 123456]) for _ in range(r * c)]
+            v1 = [rng.choice([3, 88, 2, 54321]) for _ in range(4)]
+            ops = [op('from_row', 0, rows=[v0]), op('reshape', 0, r, c), op('from_row', 1, rows=[v1]), op('reshape', 1, 2, 2),
+                   fault(k, 16), op(which, 0), op('display', 1), op('debug', 1), op('switch_order', 1), op('display', 1), op('debug', 0), op('display', 0)]
+            cases.append(Case(f'C20-cut{r}x{c}{which[1]}{k}', ops, 'tr'))
     return cases
 
 
@@ -1666,7 +1672,9 @@ def oracle_C20(case, hlines):
             obs = obs_of(line)
             slot = parse_slot(line, o[2][0])
             if not obs.startswith('S:'):
-                out.append(dict(kind='oracle', op_index=i, op=o[1], observed=obs, detail='formatting did not produce text (panic?)'))
+                # the injected panic of a faulted case propagating out of the format call is what is asked for
+                if not (' fired=1' in C.side_of(line) and 'Panic(caller)' in obs):
+                    out.append(dict(kind='oracle', op_index=i, op=o[1], observed=obs, detail='formatting did not produce text (panic?)'))
                 prev = line
                 continue
             text = ''.join(chr(int(x)) for x in obs[2:].split('.')) if len(obs) > 2 else ''
